@@ -225,6 +225,53 @@ theorem parseArr_some_ne_panic (s : Sch) (l : List String) : parseArr (.some s) 
     | nil => simp [hp]
     | panic => exact absurd hp (parsePrim_ne_panic _ _)
 
+theorem decodeObject_ne_panic (s : Sch) (ex : Bool) (raw : String) (c : Dec) (hc : c ≠ .panic) :
+    decodeObject s ex raw c ≠ .panic := by
+  unfold decodeObject
+  repeat' split
+  all_goals first | exact hc | simp
+
+theorem pairUp_none_iff_odd : ∀ (l : List String), pairUp l = none ↔ l.length % 2 = 1
+  | [] => by simp [pairUp]
+  | [_] => by simp [pairUp]
+  | k :: v :: r => by
+    have ih := pairUp_none_iff_odd r
+    simp only [pairUp, Option.map_eq_none_iff, ih, List.length_cons]
+    omega
+
+theorem lastVal_append_same (k v : String) : ∀ (ps : List (String × String)), lastVal k (ps ++ [(k, v)]) = some v
+  | [] => by simp [lastVal]
+  | (k', v') :: r => by simp [lastVal, lastVal_append_same k v r]
+
+theorem lookup_isSome_cons (k k' : String) (p : Sch) (r : Props) (h : (r.lookup k).isSome = true) :
+    ((Props.cons k' p r).lookup k).isSome = true := by
+  simp only [Props.lookup]; split <;> simp [h]
+
+/-- the declared loop only produces entries for declared names -/
+theorem buildDeclared_keys (pairs : List (String × String)) : ∀ (ps : Props) (seen : List String) (kvs : KVs),
+    buildDeclared pairs ps seen = some kvs → ∀ k, (kvs.get k).isSome = true → (ps.lookup k).isSome = true
+  | .nil, _, kvs, h, k, hk => by
+    simp only [buildDeclared, Option.some.injEq] at h
+    subst h; simp [KVs.get] at hk
+  | .cons k' p r, seen, kvs, h, k, hk => by
+    unfold buildDeclared at h
+    split at h
+    · exact lookup_isSome_cons k k' p r (buildDeclared_keys pairs r seen kvs h k hk)
+    · split at h
+      · rename_i x _
+        cases hb : buildDeclared pairs r (k' :: seen) with
+        | none => simp [hb] at h
+        | some kvs' =>
+          simp only [hb, Option.map_some, Option.some.injEq] at h
+          subst h
+          simp only [KVs.get] at hk
+          by_cases hkk : k = k'
+          · simp [Props.lookup, hkk]
+          · simp only [hkk, if_false] at hk
+            exact lookup_isSome_cons k k' p r (buildDeclared_keys pairs r _ kvs' hb k hk)
+      · exact lookup_isSome_cons k k' p r (buildDeclared_keys pairs r _ kvs h k hk)
+      · simp at h
+
 def JL.ofList : List J → JL
   | [] => .nil
   | x :: r => .cons x (JL.ofList r)
@@ -406,7 +453,7 @@ theorem checkHeader_iff (canon : String → String) (w : Bool) (hdrs : List (Str
     | some s =>
       simp only [hl, hs] at h1 h2
       simp only [Option.some.injEq, forall_eq']
-      cases hd : decodeHeader s raw h.objDec with
+      cases hd : decodeHeader s h.explode raw h.emptyNameDec with
       | err => simp [specValue]
       | panic => simp [hd] at h2
       | nil => simp [hd] at h1
@@ -464,7 +511,7 @@ theorem headerOKB_iff (canon : String → String) (w : Bool) (hdrs : List (Strin
     | none => simp
     | some s =>
       simp only [Option.some.injEq, forall_eq']
-      cases hv : specValue (decodeHeader s raw h.objDec) raw with
+      cases hv : specValue (decodeHeader s h.explode raw h.emptyNameDec) raw with
       | none => simp
       | some v => simp [satRepB_iff]
 
